@@ -924,4 +924,28 @@ theorem psQuirk_icann (p : Bytes) (h : psQuirk p = (p, true)) : p = [99] := by
   all_goals simp_all
 
 
+/-! ### One map for the whole of `Hashes` -/
+
+theorem zip_replicate_self {α β : Type} (a : α) (l : List β) :
+    (List.replicate l.length a).zip l = l.map (fun b => (a, b)) := by
+  induction l with
+  | nil => rfl
+  | cons b r ih => simp [List.replicate_succ, ih]
+
+theorem encodeLoop_replicate (st : Store) (prefs : List Bytes) :
+    encodeLoop (List.replicate prefs.length st) prefs = hashes st prefs := by
+  unfold encodeLoop hashes
+  rw [zip_replicate_self]
+  induction prefs with
+  | nil => rfl
+  | cons p r ih => simp [List.flatMap_cons, ih]
+
+theorem countLoop_replicate (st : Store) (prefs : List Bytes) :
+    countLoop (List.replicate prefs.length st) prefs = (hashes st prefs).length := by
+  unfold countLoop hashes
+  rw [zip_replicate_self]
+  induction prefs with
+  | nil => rfl
+  | cons p r ih => simp [List.flatMap_cons] at ih ⊢; omega
+
 end Agd.HashPrefix
